@@ -3,14 +3,17 @@ package props
 import (
 	"context"
 	"encoding/base64"
+	"errors"
 	"fmt"
 	"io"
 	"net/http"
 	"os"
 	"os/exec"
 	"reflect"
+	"runtime"
 	"sort"
 	"strings"
+	"sync"
 	"testing"
 	"time"
 
@@ -524,7 +527,7 @@ func TestC13Silent(t *testing.T) {
 
 func TestC13(t *testing.T) {
 	rec := evid.For("C13")
-	rec.Rule = "rapid draws DialOptions (URL scheme ws/wss/http/https, caller headers incl. ones the library must override, Host override, 0-3 subprotocols, 3 compression modes) observed by a custom RoundTripper, in a quarter of the cases after the same process has accepted a connection with a drawn (mode, offer), and a server response built from a valid one by 0-2 mutations over status {101,200,204,301,400,426,500,100,102}, Connection/Upgrade variants, accept key {correct, for another key, missing, case-changed, truncated, differing only in the two unused bits of the last base64 character, unpadded, URL alphabet or doubled}, subprotocol {none, requested, other case, unrequested, empty}, 17 extension header variants. Independent predicates check the request and decide whether the response may be accepted (ok / bad / either). Keys of 200 Dials are pairwise distinct; thorough re-runs that in a second process and requires disjoint sets. Non-trivial: a response valid in all but one respect, or valid with multi-token headers. distinct = hash(options, response)."
+	rec.Rule = "rapid draws DialOptions (URL scheme ws/wss/http/https, caller headers incl. ones the library must override, Host override, 0-3 subprotocols, 3 compression modes) observed by a custom RoundTripper, in a quarter of the cases after the same process has accepted a connection with a drawn (mode, offer), and a server response built from a valid one by 0-2 mutations over status {101,200,204,301,400,426,500,100,102}, Connection/Upgrade variants, accept key {correct, for another key, missing, case-changed, truncated, differing only in the two unused bits of the last base64 character, unpadded, URL alphabet or doubled}, subprotocol {none, requested, other case, unrequested, empty}, 17 extension header variants. Independent predicates check the request and decide whether the response may be accepted (ok / bad / either). Keys of 1500 sequential Dials and of 48000 Dials made by 16 goroutines at the same time are pairwise distinct; thorough re-runs that in a second process and requires disjoint sets. Non-trivial: a response valid in all but one respect, or valid with multi-token headers. distinct = hash(options, response)."
 	checkProp(t, func(rt *rapid.T) {
 		c := genC13(rt)
 		hdrBefore := c.Header.Clone()
@@ -612,6 +615,19 @@ func collectKeys(n int) []string {
 	return keys
 }
 
+// c13KeyRecorder is an http.RoundTripper that notes the key of every request and fails it.
+type c13KeyRecorder struct {
+	mu   sync.Mutex
+	keys []string
+}
+
+func (k *c13KeyRecorder) RoundTrip(r *http.Request) (*http.Response, error) {
+	k.mu.Lock()
+	k.keys = append(k.keys, r.Header.Get("Sec-WebSocket-Key"))
+	k.mu.Unlock()
+	return nil, errors.New("c13KeyRecorder: no network")
+}
+
 // TestC13Keys: a fresh random key per attempt.
 func TestC13Keys(t *testing.T) {
 	rec := evid.For("C13")
@@ -634,6 +650,41 @@ func TestC13Keys(t *testing.T) {
 	}
 	rec.Case(true, "keys|1500", "key-freshness")
 	rec.Evals(1499)
+	// attempts that overlap in time (real parallelism: a synctest bubble or one P would serialise them):
+	// 16 goroutines x 3000 attempts through a transport that only records the key
+	if runtime.GOMAXPROCS(0) < 4 {
+		defer runtime.GOMAXPROCS(runtime.GOMAXPROCS(4))
+	}
+	rt := &c13KeyRecorder{}
+	var wg sync.WaitGroup
+	for g := 0; g < 16; g++ {
+		wg.Add(1)
+		go func() {
+			defer wg.Done()
+			for i := 0; i < 3000; i++ {
+				conn, _, err := websocket.Dial(context.Background(), "ws://keys.example.test/", &websocket.DialOptions{HTTPClient: &http.Client{Transport: rt}})
+				if err == nil {
+					conn.CloseNow()
+				}
+			}
+		}()
+	}
+	wg.Wait()
+	par := map[string]bool{}
+	for _, k := range rt.keys {
+		if ref.KeyShape(k) != "valid" {
+			t.Fatalf("C13: key %q (concurrent attempts) is not 16 base64-encoded bytes", k)
+		}
+		if par[k] || seen[k] {
+			failCase(t, "C13", map[string]any{"duplicate_key_concurrent_attempts": k, "attempts": len(rt.keys)}, "the same Sec-WebSocket-Key was sent by two Dial attempts (16 goroutines dialling at the same time)")
+		}
+		par[k] = true
+	}
+	if len(rt.keys) != 16*3000 {
+		t.Fatalf("C13: %d of %d concurrent attempts reached the transport", len(rt.keys), 16*3000)
+	}
+	rec.Case(true, "keys|concurrent|48000", "key-freshness-concurrent-attempts")
+	rec.Evals(int64(len(rt.keys)))
 	if evid.Thorough() || os.Getenv("VERIF_C13_SECOND_PROCESS") == "1" {
 		cmd := exec.Command(os.Args[0], "-test.run", "^TestC13Keys$", "-test.timeout", "60s")
 		cmd.Env = append(os.Environ(), "VERIF_C13_PRINT_KEYS=1", "VERIF_OUT=", "VERIF_C13_SECOND_PROCESS=0", "VERIF_TIER=quick")
